@@ -9,7 +9,7 @@ from .common import LEAN, REPO, write_if_changed
 sys.path.insert(0, str(Path(__file__).resolve().parent.parent))
 
 
-ALL = ("scopemap", "builtin", "envconfig", "checkapi", "skeletons", "alias")
+ALL = ("scopemap", "builtin", "envconfig", "checkapi", "skeletons", "alias", "registry")
 
 
 def regenerate(which=("scopemap",)) -> dict:
@@ -34,6 +34,18 @@ def regenerate(which=("scopemap",)) -> dict:
     if "alias" in which:
         from extract import alias_skeletons
         write_if_changed(gen / "AliasSkeletons.lean", alias_skeletons.render(REPO))
+    if "registry" in which:
+        # needs the engines of /repo: run in the interpreter that imports it
+        import subprocess, json as _json
+        code = ("import sys, json; sys.path.insert(0, %r); sys.path.insert(0, %r); "
+                "from extract import dtype_registry as d; ds = d.dump_all(); "
+                "print(json.dumps({'dump': ds, 'lean': d.render(ds)}))") % (str(REPO), str(LEAN.parent))
+        p = subprocess.run(["/venv/bin/python", "-W", "ignore", "-c", code], capture_output=True, text=True, timeout=600)
+        if p.returncode != 0:
+            raise RuntimeError("dtype registry dump failed: " + p.stderr[-2000:])
+        payload = _json.loads(p.stdout.strip().splitlines()[-1])
+        write_if_changed(gen / "DtypeRegistry.lean", payload["lean"])
+        out["registry"] = payload["dump"]
     if "builtin" in which:
         from extract import builtin_checks
         write_if_changed(gen / "BuiltinChecks.lean", builtin_checks.render(REPO))
